@@ -1,7 +1,7 @@
 """C11 - flatten, unflatten and reshape group dimensions losslessly."""
 import itertools
 import numpy as np
-from .. import gen, model, codec
+from .. import gen, model, codec, monitors
 from . import common, c10
 
 ID = "C11"
@@ -115,6 +115,10 @@ def check(case, ctx):
     a = gen.build(sp)
     nd = m.ndim
     fam = case["family"]
+    for ax in a.axes:
+        if ax.values.dtype.kind in 'if' and rng.random() < 0.3:
+            ax.tol = 0.125        # part of the axis, like its metadata: "unflatten restores the member axes exactly"
+    axis_state = {ax.name: (monitors.freeze(dict(ax.attrs)), ax.tol) for ax in a.axes}
     base = " on dims=%r shape=%r" % (m.dims, m.shape)
     vclasses = set()
     if fam == 'flatten':
@@ -167,6 +171,11 @@ def check(case, ctx):
                     msg = model.check_coordmap(g, m, "unflatten after " + label)
                     if msg:
                         ctx.v(ID, "unflatten:coordmap", msg)
+                    lost = [(d_, (monitors.freeze(dict(u.axes[d_].attrs)), u.axes[d_].tol)) for d_ in esub
+                            if (monitors.freeze(dict(u.axes[d_].attrs)), u.axes[d_].tol) != axis_state[d_]]
+                    if lost:
+                        ctx.v(ID, "unflatten:member-axis-state", "unflatten after %s: axis %r came back with (attrs, tol) = %r, the original has %r" % (
+                            label, lost[0][0], (dict(u.axes[lost[0][0]].attrs), u.axes[lost[0][0]].tol), (dict(a.axes[lost[0][0]].attrs), a.axes[lost[0][0]].tol)))
         # flatten() of everything, and unflatten(axis=...) by name / position
         res, exc = ctx.call("a.flatten()" + base, lambda: a.flatten(), operands=(a,), meta='carry')
         if exc is not None or not common.is_da(res):
@@ -242,10 +251,25 @@ def check(case, ctx):
     for rep in range(4):
         sub = rng.sample(list(m.dims), rng.randint(1, nd))
         f = rng.choice(['sum', 'mean', 'max', 'min', 'std'])
-        label = "a.%s(axis=%r)" % (f, tuple(sub)) + base
-        r1, e1 = ctx.call(label, lambda: getattr(a, f)(axis=tuple(sub)), operands=(a,))
-        r2, e2 = ctx.call("a.flatten(%r, insert=0).%s(axis=0)" % (tuple(sub), f) + base, lambda: getattr(a.flatten(tuple(sub), insert=0), f)(axis=0), operands=(a,))
-        e = getattr(np, f)(m.values, axis=tuple(m.dims.index(d) for d in sub))
+        skipna = rng.random() < 0.5
+        v_ = m.values
+        a.values[...] = v_
+        if skipna and v_.dtype.kind == 'f' and v_.size > 1:
+            # NaNs spread unevenly over the group: a mean of partial means differs from the mean over the group
+            v_ = v_.copy()
+            holes = [rng.random() < 0.35 for _ in range(v_.size)]
+            if all(holes):
+                holes[0] = False
+            v_.ravel()[np.array(holes)] = np.nan
+            a.values[...] = v_
+        kw = {"skipna": True} if skipna else {}
+        label = "a.%s(axis=%r%s)" % (f, tuple(sub), ", skipna=True" if skipna else "") + base
+        r1, e1 = ctx.call(label, lambda: getattr(a, f)(axis=tuple(sub), **kw), operands=(a,))
+        r2, e2 = ctx.call("a.flatten(%r, insert=0).%s(axis=0)" % (tuple(sub), f) + base, lambda: getattr(a.flatten(tuple(sub), insert=0), f)(axis=0, **kw), operands=(a,))
+        with np.errstate(all='ignore'), __import__('warnings').catch_warnings():
+            __import__('warnings').simplefilter('ignore')
+            e = getattr(np, ('nan' if skipna else '') + f)(v_, axis=tuple(m.dims.index(d) for d in sub))
+        ctx.outcomes['tuple-reductions' + ('-skipna' if skipna else '')] += 1
         keep = [i for i in range(nd) if m.dims[i] not in sub]
         exp = model.MA(e, [m.dims[i] for i in keep], [m.labels[i] for i in keep])
         common.expect(ctx, ID, "tuplereduce", label, r1, e1, exp=exp, rtol=1e-9, atol=1e-9)
